@@ -1489,8 +1489,10 @@ Proof.
     destruct ((c =? 239) && (b =? 187) && (c' =? 191)) eqn:T; [exfalso|reflexivity].
     assert (c = 239 /\ b = 187 /\ c' = 191) as (-> & -> & ->) by lia.
     change (utf8_length 239) with 3 in L.
-    destruct tl as [|x [|y [|z tl']]]; try (rewrite ?Zlength_cons, Zlength_nil in L; pose proof (Zlength_nonneg tl'); lia).
-    cbn [app] in Et. inversion Et as [[Hx Hy Ht']]. subst x y. apply Hn.
+    assert (Htl : Zlength tl = 2) by (rewrite Zlength_cons in L; lia).
+    destruct tl as [|x [|y [|z tl']]]; rewrite ?Zlength_cons, ?Zlength_nil in Htl; try lia;
+      try (pose proof (Zlength_nonneg tl'); lia).
+    cbn [app] in Et. inversion Et; subst. apply Hn.
     change (seq_val [239; 187; 191]) with (Some 65279) in Sv. inversion Sv. reflexivity.
 Qed.
 
